@@ -17,7 +17,7 @@ import (
 
 type C15Ev struct {
 	AtMs int    `json:"at_ms"`
-	Kind string `json:"kind"` // rebind | unbind | replay | forward | stale | drop-next-s | drop-next-c | delay-next-c
+	Kind string `json:"kind"` // rebind | unbind | replay | forward | stale | drop-next-s | drop-next-c | delay-next-c | slow-responses | prompt-responses
 	Arg  int    `json:"arg,omitempty"`
 }
 
@@ -29,6 +29,9 @@ type C15Params struct {
 	StripRRC bool    `json:"strip_rrc"`
 	Script   []C15Ev `json:"script"`
 	Clients  int     `json:"clients,omitempty"`
+	// MixCID (listener mode): every second client offers no connection_id extension, so
+	// connections with and without a connection ID share one listener and one address space
+	MixCID bool `json:"mix_cid,omitempty"`
 	ParkPm   int     `json:"park_pm,omitempty"`
 }
 
@@ -40,7 +43,7 @@ func c15Counts(tier string) (int, int) {
 	return 0, 10000000
 }
 
-var c15Kinds = []string{"rebind", "rebind", "unbind", "replay", "forward", "stale", "drop-next-s", "drop-next-c", "delay-next-c"}
+var c15Kinds = []string{"rebind", "rebind", "unbind", "replay", "forward", "stale", "drop-next-s", "drop-next-c", "delay-next-c", "slow-responses", "prompt-responses"}
 
 func c15Gen(r *rand.Rand, tier string, idx int) any {
 	p := &C15Params{Mode: "migrate", Ver: []int{12, 12, 12, 13}[r.IntN(4)]}
@@ -50,6 +53,9 @@ func c15Gen(r *rand.Rand, tier string, idx int) any {
 		p.SCID = []int{1, 4, 8}[r.IntN(3)]
 		p.CCID = []int{-1, 0, 4}[r.IntN(3)]
 		p.Clients = 2 + r.IntN(2)
+		if r.IntN(3) == 0 {
+			p.MixCID, p.CCID = true, []int{0, 4}[r.IntN(2)]
+		}
 		n := 1 + r.IntN(5)
 		for i := 0; i < n; i++ {
 			p.Script = append(p.Script, C15Ev{AtMs: 20 + r.IntN(400), Kind: []string{"swap", "rebind", "borrow"}[r.IntN(3)], Arg: r.IntN(6)})
@@ -71,10 +77,34 @@ func c15Gen(r *rand.Rand, tier string, idx int) any {
 	t := 0
 	for i := 0; i < n; i++ {
 		t += 10 + r.IntN(700)
-		p.Script = append(p.Script, C15Ev{AtMs: t, Kind: c15Kinds[r.IntN(len(c15Kinds))], Arg: 1 + r.IntN(2)})
+		ev := C15Ev{AtMs: t, Kind: c15Kinds[r.IntN(len(c15Kinds))], Arg: 1 + r.IntN(2)}
+		p.Script = append(p.Script, ev)
+		if ev.Kind == "slow-responses" && r.IntN(3) != 0 {
+			// the interesting continuation: the path changes while every answer to a challenge is late
+			t += 1 + r.IntN(300)
+			p.Script = append(p.Script, C15Ev{AtMs: t, Kind: "rebind", Arg: 1 + r.IntN(2)})
+			t += 1500 + r.IntN(2500)
+			p.Script = append(p.Script, C15Ev{AtMs: t, Kind: []string{"prompt-responses", "unbind", "replay"}[r.IntN(3)], Arg: 1})
+		}
 	}
 
 	return p
+}
+
+const ctRRC = 27 // return_routability_check content type (RFC 9853)
+
+type c15Chal struct {
+	seq    uint64
+	at     time.Duration
+	to     string
+	cookie string
+}
+
+type c15Resp struct {
+	seq    uint64
+	at     time.Duration
+	from   string
+	cookie string
 }
 
 func c15Run(rc *RunCtx, params any) {
@@ -95,7 +125,7 @@ func c15Run(rc *RunCtx, params any) {
 	}
 	cspec.CIDLen, sspec.CIDLen, cspec.CIDTag, sspec.CIDTag = p.CCID, p.SCID, 0x21, 0x61
 	rc.Note("proto", protoTag(cspec, sspec))
-	env := &Env{Extra: map[string][]dtls.Option{}}
+	env := &Env{Extra: map[string][]dtls.Option{}, KeyLogs: map[string]*KeyLog{}}
 	if p.StripRRC {
 		env.Extra["c"] = append(env.Extra["c"], dtls.WithClientHelloMessageHook(func(ch handshake.MessageClientHello) handshake.Message {
 			var keep []extension.Value
@@ -123,6 +153,13 @@ func c15Run(rc *RunCtx, params any) {
 		return
 	}
 	s.Run(func() bool { return false }, 3*time.Second)
+	dec := NewRecDecoder(pair, n, cspec, sspec)
+	if dec == nil {
+		rc.Violate("harness", "no reference keys for the established session")
+
+		return
+	}
+	liveDec := dec.Fork() // decodes client datagrams in emission order (to recognise path responses in transit)
 	orig := pair.CAddr
 	alts := []net.Addr{nil, Addr(11, 6001), Addr(12, 6002)}
 	attacker := Addr(66, 666)
@@ -137,6 +174,7 @@ func c15Run(rc *RunCtx, params any) {
 	divert := "" // forward | stale: what to do with the next client datagram
 	dropNext := map[string]bool{}
 	delayNextC := false
+	slowResponses := false
 	var held []byte
 	heldCountdown := 0
 	var lastDeliveredC []byte
@@ -156,6 +194,28 @@ func c15Run(rc *RunCtx, params any) {
 		}
 		if em.Ep != "c" {
 			return em.Data
+		}
+		isResponse := false
+		for _, r := range liveDec.OpenDatagram("c", em.Data) {
+			if r.Type == ctRRC && len(r.Plain) >= 1 && r.Plain[0] == 1 {
+				isResponse = true
+			}
+		}
+		if isResponse {
+			s.Probe("path-response-on-the-wire")
+		}
+		if isResponse && slowResponses {
+			// the answer to the challenge arrives after the validation period; everything else from
+			// that address keeps flowing
+			late := s.Ch.Draw("late", func(r *rand.Rand) Dec { return Dec{A: r.Int64N(1500)} })
+			src := net.Addr(orig)
+			if curSrc > 0 {
+				src = alts[curSrc]
+			}
+			s.Fault("path-response-late")
+			n.Inject(time.Second+50*time.Millisecond+time.Duration(late.A)*time.Millisecond, src, pair.SAddr, append([]byte(nil), em.Data...))
+
+			return nil
 		}
 		if heldCountdown > 0 {
 			heldCountdown--
@@ -216,6 +276,10 @@ func c15Run(rc *RunCtx, params any) {
 				dropNext["c"] = true
 			case "delay-next-c":
 				delayNextC = true
+			case "slow-responses":
+				slowResponses = true
+			case "prompt-responses":
+				slowResponses = false
 			}
 			s.Record("script", "net", ev.Kind, nil)
 		})
@@ -297,6 +361,60 @@ func c15Run(rc *RunCtx, params any) {
 			genuineFrom[d.From] = append(genuineFrom[d.From], d.Seq)
 		}
 	}
+	// ---- decoded view of path validation (refdtls opens every record) ----
+	var chals []c15Chal
+	var resps []c15Resp
+	emDec, dlDec := dec.Fork(), dec.Fork()
+	for _, em := range n.Emits[dataFrom:] {
+		if em.Ep != "s" {
+			continue
+		}
+		for _, r := range emDec.OpenDatagram("s", em.Data) {
+			if r.Type == ctRRC && len(r.Plain) == 9 && r.Plain[0] == 0 {
+				chals = append(chals, c15Chal{seq: em.Seq, at: em.At, to: em.To, cookie: string(r.Plain[1:])})
+			}
+		}
+	}
+	// deliveries to the server in processing order: which carried a record newer than everything before
+	newestFrom := map[string][]uint64{}
+	haveMax := false
+	var maxE uint16
+	var maxS uint64
+	for _, d := range n.Deliv {
+		if d.Ep != "s" {
+			continue
+		}
+		for _, r := range dlDec.OpenDatagram("c", d.Data) {
+			if !haveMax || r.Epoch > maxE || (r.Epoch == maxE && r.Seq > maxS) {
+				haveMax, maxE, maxS = true, r.Epoch, r.Seq
+				if d.Seq > 0 {
+					newestFrom[d.From] = append(newestFrom[d.From], d.Seq)
+				}
+			}
+			if r.Type == ctRRC && len(r.Plain) == 9 && r.Plain[0] == 1 {
+				resps = append(resps, c15Resp{seq: d.Seq, at: d.At, from: d.From, cookie: string(r.Plain[1:])})
+			}
+		}
+	}
+	if len(chals) > 0 {
+		s.Probe("path-challenges-decoded")
+	}
+	challengesTo := map[string]int{}
+	for _, c := range chals {
+		// a challenge goes out only because an authentic record newer than all before arrived from that address
+		challengesTo[c.to]++
+		k := 0
+		for _, sq := range newestFrom[c.to] {
+			if sq < c.seq {
+				k++
+			}
+		}
+		if k < challengesTo[c.to] {
+			rc.Violate("challenge-without-newest-record", "server sent path_challenge number %d to %s after only %d authentic newest records had arrived from that address (a replayed or overtaken record must not start path validation)", challengesTo[c.to], c.to, k)
+
+			return
+		}
+	}
 	sentTo := map[string]int{}
 	for _, em := range n.Emits[dataFrom:] {
 		if em.Ep != "s" {
@@ -339,20 +457,25 @@ func c15Run(rc *RunCtx, params any) {
 
 			return
 		}
-		// a genuine record from x, then a challenge to x, then a genuine datagram from x within the timeout
+		// the newest challenge sent to x before some path_response that arrived from x carries the same
+		// cookie as that response, and the response arrived within the validation period
 		okPath := false
-		for _, em := range n.Emits[dataFrom:] {
-			if em.Ep != "s" || em.To != x || em.Seq > t {
+		for _, r := range resps {
+			if r.from != x || r.seq > t || r.seq < timeline[i-1].seq {
 				continue
 			}
-			for _, d := range n.Deliv[delivFrom:] {
-				if d.Ep == "s" && d.From == x && d.Seq > em.Seq && d.Seq <= t && d.At-em.At <= time.Second && !(d.Injected && d.From == attacker.String()) {
-					okPath = true
+			var last *c15Chal
+			for k := range chals {
+				if chals[k].to == x && chals[k].seq < r.seq {
+					last = &chals[k]
 				}
+			}
+			if last != nil && last.cookie == r.cookie && r.at-last.at <= time.Second {
+				okPath = true
 			}
 		}
 		if !okPath {
-			rc.Violate("migrated-without-validation", "server's peer address changed to %s at event %d without a challenge to that address answered from it within one second", x, t)
+			rc.Violate("migrated-without-validation", "server's peer address changed to %s at event %d although no path_response from that address answered the newest path_challenge sent to it within one second (%d challenges, %d responses decoded)", x, t, len(chals), len(resps))
 
 			return
 		}
@@ -382,7 +505,7 @@ func c15Run(rc *RunCtx, params any) {
 
 func c15RunListener(rc *RunCtx, p *C15Params) {
 	s := rc.S
-	rc.R.Class = fmt.Sprintf("listener/clients%d/scid%d/ccid%d", p.Clients, p.SCID, p.CCID)
+	rc.R.Class = fmt.Sprintf("listener/clients%d/scid%d/ccid%d/mix=%v", p.Clients, p.SCID, p.CCID, p.MixCID)
 	rc.R.NonTriv = true
 	rc.Note("proto", "dtls12")
 	n := NewSimNet(s, NetRules{})
@@ -416,9 +539,10 @@ func c15RunListener(rc *RunCtx, p *C15Params) {
 		return
 	}
 	type srvSide struct {
-		conn *dtls.Conn
-		got  [][]byte
-		done bool
+		conn  *dtls.Conn
+		got   [][]byte
+		done  bool
+		peer0 string // the address the connection was accepted from
 	}
 	var servers []*srvSide
 	s.Go("acceptor", func() {
@@ -431,7 +555,7 @@ func c15RunListener(rc *RunCtx, p *C15Params) {
 			if !ok {
 				return
 			}
-			ss := &srvSide{conn: dc}
+			ss := &srvSide{conn: dc, peer0: dc.RemoteAddr().String()}
 			servers = append(servers, ss)
 			s.Go("srv-reader", func() {
 				buf := make([]byte, 4096)
@@ -457,9 +581,15 @@ func c15RunListener(rc *RunCtx, p *C15Params) {
 		src  net.Addr // current apparent source address
 	}
 	var clients []*cliSide
+	hasCID, addrOwner := map[string]bool{}, map[string]string{}
 	for i := 0; i < p.Clients; i++ {
 		cspec, _ := pskPair(suitePSKGCM)
 		cspec.CIDLen, cspec.CIDTag = p.CCID, byte(0x30+i)
+		if p.MixCID && i%2 == 1 {
+			cspec.CIDLen = -1
+		}
+		hasCID[fmt.Sprintf("c%d", i)] = cspec.CIDLen >= 0
+		addrOwner[Addr(byte(20+i), 7000+i).String()] = fmt.Sprintf("c%d", i)
 		name := fmt.Sprintf("c%d", i)
 		addr := Addr(byte(20+i), 7000+i)
 		sock := n.NewConn(name, addr)
@@ -598,7 +728,15 @@ func c15RunListener(rc *RunCtx, p *C15Params) {
 				return
 			}
 		}
-		if p.CCID < 0 {
+		if owner == "" {
+			owner = addrOwner[sv.peer0]
+			if owner != "" && hasCID[owner] && len(wrote[owner]) > 0 {
+				rc.Violate("starved-connection", "accepted connection %d (client %s) never read anything although its client kept writing (routing by connection ID lost its datagrams)", i, owner)
+
+				return
+			}
+		}
+		if !hasCID[owner] {
 			continue // the client offered no connection_id extension: nothing to route by
 		}
 		if owner == "" {
